@@ -120,6 +120,7 @@ def one_case(args):
     grid = sorted({round(Hh(t), 9) for t in th} | {round(Hc(t), 9) for t in tc})
     ints = []
     area_def = 0.0
+    approx = 0.0
     raw = []
     for h1, h2 in zip(grid, grid[1:]):
         if h2 - h1 < 1e-9:
@@ -133,6 +134,7 @@ def one_case(args):
         R = resistance(hot, th1, th2) + resistance(cold, tc1, tc2)
         Rf = F(R).limit_denominator(24)
         area_def += (h2 - h1) * R / L
+        approx += (h2 - h1) * abs(R - float(Rf)) / L          # what the rational transport of R (denominator <= 24) can shift the sum by
         raw.append([h2 - h1, d1, d2, R, h2])
         ints.append(dict(q=int(round((h2 - h1) * K)), d1=int(round(d1 * K)), d2=int(round(d2 * K)), L=int(round(L * K)), rn=Rf.numerator, rd=Rf.denominator))
     # the code's documented "discontinuity" adjustment, replicated only to recognise the known finding precisely
@@ -145,7 +147,8 @@ def one_case(args):
     area_adj = sum(q * R / (d1 if abs(d1 - d2) < 1e-9 else (d1 - d2) / math.log(d1 / d2)) for q, d1, d2, R, _ in raw)
     cfg = z.config
     ev = dict(id=eid, spanHot=int(round(spanH * K)), spanCold=int(round(spanC * K)), ints=ints, area=int(round(float(area) * K)),
-              N=int(units), a=int(cfg.FIXED_COST), b=int(cfg.VARIABLE_COST), cost=int(round(float(cost))), costExp1=1 if cfg.COST_EXP == 1 else 0)
+              N=int(units), a=int(cfg.FIXED_COST), b=int(cfg.VARIABLE_COST), cost=int(round(float(cost))), costExp1=1 if cfg.COST_EXP == 1 else 0,
+              approx=int(math.ceil(approx * K)) + 1)
     py = []
     if not (math.isfinite(float(area)) and float(area) > 0):
         py.append("C15.area_positive_finite")
